@@ -29,6 +29,10 @@ def wellformed(roots):
     for o in objs:
         for f in o.eClass.eAllReferences():
             vals = list(o.eGet(f)) if f.many else ([o.eGet(f)] if o.eGet(f) is not None else [])
+            if f.many and f.unique:
+                ids = [id(unproxy(v)) for v in vals if unproxy(v) is not None]
+                if len(ids) != len(set(ids)):
+                    return f'{o.eClass.name}.{f.name} (unique) holds an element twice'
             for v in vals:
                 v = unproxy(v)
                 if v is None:
